@@ -346,6 +346,10 @@ def _reference(Qn, pi, t, reversible, fast):
     if k <= 8:
         return rm.expm_mp(np.asarray(Qn) * t)
     if reversible:
+        # 20 x 20 / 61 x 61: multiple precision costs seconds; if numpy's symmetric
+        # eigen-decomposition and scipy's Pade approximant agree to 1e-12 they are the reference
+        if maxabs(rm.p_t_reversible_eigh(Qn, pi, t), fast) <= 1e-12:
+            return fast
         return rm.p_t_reversible_mp(Qn, pi, t, dps=30)
     return fast
 
